@@ -29,10 +29,17 @@ class FunctionalClass(IdentifiableElement):
         return FunctionalClass(admin_data=admin_data, **kwargs)
 
     def _build_odxlinks(self) -> Dict[OdxLinkId, Any]:
-        return {self.odx_id: self}
+        result = {self.odx_id: self}
+
+        if self.admin_data is not None:
+            result.update(self.admin_data._build_odxlinks())
+
+        return result
 
     def _resolve_odxlinks(self, odxlinks: OdxLinkDatabase) -> None:
-        pass
+        if self.admin_data is not None:
+            self.admin_data._resolve_odxlinks(odxlinks)
 
     def _resolve_snrefs(self, context: SnRefContext) -> None:
-        pass
+        if self.admin_data is not None:
+            self.admin_data._resolve_snrefs(context)
